@@ -363,6 +363,11 @@ func TestC12Regress(t *testing.T) {
 	rec := stats.For("C12", "regress")
 	env := &c12Env{base: t.TempDir()}
 	for _, rc := range loadRegressions(t, "C12") {
+		if rc.Kind == "churn" {
+			// not a program: the churn stress is simply run again
+			TestC12Churn(t)
+			continue
+		}
 		var p c12Program
 		if err := json.Unmarshal(rc.Case, &p); err != nil {
 			t.Fatalf("bad C12 regression: %v", err)
@@ -375,4 +380,74 @@ func TestC12Regress(t *testing.T) {
 		}
 		rec.Case(true, canonJSON(p), func() any { return p }, "regression")
 	}
+}
+
+// TestC12Churn: Spec files that sort before an untouched one are written and
+// removed by several goroutines while the main goroutine refreshes and queries
+// (manual mode: every Refresh is a scan racing with the removals). The devices
+// of the untouched file must resolve in every single result - a file that
+// vanishes between being listed and being read concerns that file only - and
+// an injection of them must always succeed completely. Race-detector build.
+func TestC12Churn(t *testing.T) {
+	rec := stats.For("C12", "churn")
+	dir := filepath.Join(t.TempDir(), "specs")
+	_ = os.MkdirAll(dir, 0o755)
+	stable := []byte(`{"cdiVersion":"0.6.0","kind":"stable.org/dev","devices":[{"name":"s0","containerEdits":{"env":["S=0"]}},{"name":"s1","containerEdits":{"env":["S=1"]}}]}`)
+	if err := os.WriteFile(filepath.Join(dir, "zzz-stable.json"), stable, 0o644); err != nil {
+		t.Fatal(err)
+	}
+	cache, _ := cdi.NewCache(cdi.WithSpecDirs(dir), cdi.WithAutoRefresh(false))
+	writers := envInt("VERIF_C12_CHURN_WRITERS", 6)
+	budget := time.Duration(envInt("VERIF_C12_CHURN_MS", 6000)) * time.Millisecond
+	var stop atomic.Bool
+	var wg sync.WaitGroup
+	var written atomic.Int64
+	for w := 0; w < writers; w++ {
+		wg.Add(1)
+		go func(w int) {
+			defer wg.Done()
+			wc, _ := cdi.NewCache(cdi.WithSpecDirs(dir), cdi.WithAutoRefresh(false))
+			spec := &specs.Spec{Version: "0.6.0", Kind: fmt.Sprintf("churn%d.org/dev", w), Devices: []specs.Device{{Name: "c", ContainerEdits: specs.ContainerEdits{Env: []string{"C=1"}}}}}
+			for i := 0; !stop.Load(); i++ {
+				name := fmt.Sprintf("aaa-%d-%d", w, i%3)
+				if i%2 == 1 {
+					name += ".json"
+				}
+				_ = wc.WriteSpec(spec, name)
+				written.Add(1)
+				_ = wc.RemoveSpec(name)
+			}
+		}(w)
+	}
+	start := time.Now()
+	rounds := 0
+	var failure string
+	for time.Since(start) < budget && failure == "" {
+		rounds++
+		_ = cache.Refresh()
+		got := map[string]bool{}
+		for _, d := range cache.ListDevices() {
+			got[d] = true
+		}
+		if !got["stable.org/dev=s0"] || !got["stable.org/dev=s1"] {
+			failure = fmt.Sprintf("after refresh %d the devices of the untouched file zzz-stable.json are missing from ListDevices (%d devices listed): a result that reflects no state the directory was ever in", rounds, len(got))
+			break
+		}
+		o := &oci.Spec{}
+		if unres, err := cache.InjectDevices(o, "stable.org/dev=s0", "stable.org/dev=s1"); err != nil || len(unres) != 0 {
+			failure = fmt.Sprintf("after refresh %d the devices of the untouched file zzz-stable.json do not inject: unresolved %v, error %v", rounds, unres, err)
+		}
+	}
+	stop.Store(true)
+	wg.Wait()
+	if failure != "" {
+		p := saveReplay("C12", "churn", map[string]any{"writers": writers, "rounds": rounds})
+		t.Fatalf("C12 violated: %s\n%d writers writing and removing Spec files that sort before it, %d files written so far\nreplay: %s", failure, writers, written.Load(), p)
+	}
+	rec.Add("refreshes", int64(rounds))
+	rec.Add("files-written-and-removed", written.Load())
+	c := map[string]any{"writers": writers, "shard": os.Getenv("VERIF_SHARD")}
+	rec.Case(rounds > 100, canonJSON(c), func() any {
+		return map[string]any{"writers": writers, "refreshes": rounds, "filesWrittenAndRemoved": written.Load()}
+	}, "churn")
 }
